@@ -83,10 +83,10 @@ PROPS = {
     "C18": dict(
         level="exploration",
         technique="fault-injection property testing: for every scenario of a catalogue and every index k the k-th request to libcoap's typed allocator fails (ld --wrap); enumerated over all k with default parameters and generated over scenario parameters and failure pairs; ASan/UBSan/assert + allocation table + LeakSanitizer + canary exchange as oracle",
-        level_text="13 scenarios (set-up/tear-down, GET CON/NON, PUT, Block1, Block2, observe, async, OSCORE, URI helpers, .well-known/core, TCP, cache), both endpoints libcoap; the enumeration tier fails every single allocation of every scenario once.",
+        level_text="16 scenarios (set-up/tear-down, GET CON/NON, PUT, Block1, Block2, observe, async, OSCORE, URI helpers, .well-known/core, TCP, cache, context with listening address, Block1 from a scripted peer without Size1, large TCP messages), both endpoints libcoap; the enumeration tier fails every single allocation of every scenario once.",
         level_note="Trusted base: sim/alloc.cc (the allocation table and failure injection), sim/sim.cc, sanitizer runtimes. Only allocations through coap_malloc_type()/coap_realloc_type() are failed (not GnuTLS's or libc's own). 'The case returns' is a wall-clock watchdog of 30 s.",
-        quick=enum(4, 15 * 400) + rc(8, 6000),
-        thorough=enum(4, 15 * 400) + rc(12, 150000),
+        quick=enum(4, 16 * 400) + rc(8, 6000),
+        thorough=enum(4, 16 * 400) + rc(12, 150000),
         case_timeout=30,
         **SIM_ALLOC,
     ),
